@@ -18,6 +18,13 @@ func VerifH_C13_readonly() {
 		if err := vIns(w2, int64(100+v), int64(v+1), int64(v), nil); err != nil {
 			panic(err)
 		}
+		// and a row that is already deleted again (a vacuum would have work to do)
+		if err := vIns(w2, int64(100+v), int64(40+v), int64(v), nil); err != nil {
+			panic(err)
+		}
+		if err := w2.Delete(vAt(int64(150+v)), int64(40+v)); err != nil {
+			panic(err)
+		}
 		if err := w2.Commit(vCtx); err != nil {
 			panic(err)
 		}
@@ -54,8 +61,7 @@ func VerifH_C13_readonly() {
 			_ = ro.Begin(vCtx)
 			_ = ro.Rollback()
 		case 5:
-			err := Vacuum(vCtx, "t", time.Unix(0, 1<<40))
-			symAssert(err != nil, "vacuum-refused")
+			_ = Vacuum(vCtx, "t", time.Unix(0, 1<<40)) // may be refused or do nothing; it must not write
 		case 6:
 			_ = kv.DeleteHistoricVersions(vCtx, ro.Tree.Root, time.Unix(0, 1<<40))
 		case 7:
